@@ -35,6 +35,19 @@ def _subtree(P, a):
 
 def h(cfg):
     P, w, tasks = setup(cfg)
+    cfg = P.cfg
+    outside = None
+    if cfg.get('outside_pred'):
+        # a finished/dated task of ANOTHER WBS (or a free-standing one) as predecessor of a member
+        from pjplan import WBS as _WBS, Task as _Task
+        from symx import choose as _choose, fresh_int as _fi, dt as _dt, DAY_US as _D
+        k = _choose('outside_to', P.n)
+        x = _Task(77, 'outside', start=_dt(P.start_day - 2, 0), end=_dt(P.start_day + 2 + _choose('outside_end', 2), _fi('outside_end_us', 0, _D - 1)))
+        if _choose('outside_in_wbs', 2):
+            other = _WBS()
+            other.roots.append(x)
+        tasks[k].predecessors.append(x)
+        outside = (k, x)
     sch, exc = run_calc(P, w)
     if exc is not None:
         check(True, 'C02 (not schedulable: ' + type(exc).__name__ + ')')
@@ -64,6 +77,9 @@ def h(cfg):
         check(first >= P.clock_day, 'C02 task starts or works before the current day')
         if P.min_start[i] is not None:
             check(first >= day_of(P.min_start[i]), 'C02 task starts or works before its min_start day')
+        if outside is not None and (outside[0] == i or outside[0] in ancestors(P.parent, i)):
+            check(first >= day_of(outside[1].end), 'C02 task starts or works before the day a prerequisite ends',
+                  detail='prerequisite outside the WBS')
         own = set()
         for q, s in P.links:
             if s == i:
@@ -91,11 +107,14 @@ SUMMARY_PRED = dict(sched.PLAIN, n=4, fixed_parent=[-1, 0, 0, -1], link_pairs=[(
 NESTED = dict(sched.PLAIN, n=6, fixed_parent=[-1, -1, 1, -1, 3, -1], link_pairs=[(0, 2), (1, 4), (3, 5)], E=4, scenarios=[(0, -1)])
 
 
+OUTSIDE = dict(sched.PLAIN, n=2, outside_pred=True, scenarios=[(0, -1)])
+
+
 def harnesses(tier):
     hs = sched.standard_harnesses(h, tier, backward=False)
     for x in hs:
         if 'profiles' in x['cfg']:
-            x['cfg'] = dict(x['cfg'], profiles=dict(x['cfg']['profiles'], **{'n4-inherited': INHERIT, 'n4-inherited-b': INHERIT_B, 'n4-summary-pred': SUMMARY_PRED, 'n6-nested': NESTED}))
+            x['cfg'] = dict(x['cfg'], profiles=dict(x['cfg']['profiles'], **{'n4-inherited': INHERIT, 'n4-inherited-b': INHERIT_B, 'n4-summary-pred': SUMMARY_PRED, 'n6-nested': NESTED, 'n2-outside-pred': OUTSIDE}))
     if tier != 'quick':
         # two levels of inherited prerequisites reached through links (roots X, S{L}, Q{P}, R)
         hs.append({'name': 'forward-n6-nested-inheritance', 'fn': h,
